@@ -24,6 +24,11 @@ COMPONENTS = {
     "real": ["BootImageV20/V21, SBV2xAdvancedParams", "create_mbi_class / get_mbi_class / load_from_config / export", "otfad.KeyBlob", "iee.IeeKeyBlob", "bee.BeeProtectRegionBlock / BeeKIB / BeeRegionHeader", "hab CsfHabSegment.get_dek_from_config / generate_nonce", "spsdk.crypto.rng"],
     "stub": ["OS entropy (secrets.token_bytes/token_hex/randbelow, os.urandom): injective counter device", "wall clock (time.*, datetime.now)", "interpreter restart (fork + fresh import of spsdk instead of exec)"],
 }
+MEASURES = {
+    "distinct_schedules": "distinct (module import order, clock pattern across restarts) sequences",
+    "distinct_states": "not measured (0)",
+    "sim_time_s": "not meaningful here (the clock only serves to repeat or step back wall time across restarts)",
+}
 ASSUMPTIONS = [
     "the entropy device is injective, so equal secrets can only come from reuse in the code, never from chance",
     "a restart is modelled by a forked child that has imported third-party libraries but no spsdk module",
